@@ -371,7 +371,7 @@ def render_case(draw):
         fr = float(np.nextafter(fr, draw(st.sampled_from([-1.0, 1.0])))) if draw(st.booleans()) else fr
         fr = min(0.5, max(-0.5, fr))
     return {"count": cnt, "frac": fr, "how": draw(st.sampled_from(["default", "precision", "precision", "format", "str", "array", "alwayssign", "imag", "unit_str", "unit_obj",
-                                                                    "unit_built"])),
+                                                                    "unit_built", "alwayssign_default"])),
             "p": p, "w": draw(st.sampled_from(["", "12", "+", "+20", "025"]))}
 
 
@@ -399,6 +399,8 @@ def run_render(case, stt):
             s, digits = p.to_string(unit=un, precision=prec), prec
         elif how == "alwayssign":
             s, digits = p.to_string(precision=prec, alwayssign=True), prec
+        elif how == "alwayssign_default":
+            s, digits = p.to_string(alwayssign=True), None
         elif how == "format":
             if prec == 0:
                 prec = 1
@@ -434,8 +436,8 @@ def run_render(case, stt):
         nd = len(body.split(".")[1]) if "." in body else 0
         check(nd == digits, "{!r} shows {} decimals, {} requested", s, nd, digits)
         check(abs(v - e) <= F(1, 2) / 10**digits, "{!r} is not the exact value {} rounded to {} decimals (off by {:.3g})", s, _fmt(e), digits, float(abs(v - e)))
-    if how == "alwayssign":
-        check(body[0] in "+-", "alwayssign: {!r}", s)
+    if how in ("alwayssign", "alwayssign_default"):
+        check(body[0] in "+-" and (body[0] == "-") == (e < 0 or (e == 0 and body[0] == "-")), "alwayssign: {!r} for the value {}", s, _fmt(e))
     if how == "format" and case["w"].lstrip("+0").isdigit():
         check(len(s) >= int(case["w"].lstrip("+0")), "format width: {!r}", s)
     fr_abs = abs(e - math.floor(e + F(1, 2)))
